@@ -1,48 +1,73 @@
-(* C17 - PostgreSQL autocommit switching: every write runs with autocommit off; autocommit is never switched inside a transaction. *)
+(* C17 - PostgreSQL autocommit switching under database errors: every successful write (and every COMMIT) runs with autocommit
+   off; autocommit is never switched inside a transaction; a session always ends without a registered cache. *)
 From Coq Require Import List Bool Arith.
 Import ListNotations.
 Require Import PonyV.Model.C19Txn PonyV.Model.C17Pg.
 
 Definition pinv (sh : shape) (s : pst) : bool :=
   negb (g_bad s) &&
-  (if g_intx s then negb (g_ac s) && g_has s && g_imm s && g_reg s else true) &&
-  (if g_dtx s then g_intx s else true) &&
-  (if g_has s then g_reg s && (g_imm s || g_ac s) else negb (g_dtx s)) &&
-  (if g_reg s then (if shape_imm sh then g_imm s else true) else negb (g_has s) && negb (g_intx s)).
+  (if g_dtx s then negb (g_ac s) && g_has s && g_pool s else true) &&
+  (if g_intx s && g_reg s then negb (g_ac s) && g_has s && g_imm s else true) &&
+  (if g_has s then g_pool s && g_reg s && (g_imm s || g_ac s) else true) &&
+  (if g_reg s then (if shape_imm sh then g_imm s else true) else negb (g_has s)).
 Definition PInv (sh : shape) (s : pst) : Prop := pinv sh s = true /\ pg_writes_ok (g_trace s) = true.
 
-Ltac pcrunch :=
-  intros [h a d r i x b tr] [Hi Hw]; unfold PInv, pinv in *; cbn in *;
-  destruct h, a, d, r, i, x, b; cbn in *; try discriminate; rewrite ?Hw; auto.
+Section S.
+Variable oracle : nat -> bool.
 
-Lemma pinv_op : forall sh o s, PInv sh s -> PInv sh (pg_op sh o s).
+Ltac pnorm := cbv beta iota zeta delta [pg_op pg_exec pg_prepare pg_connect pg_stm pg_get_cache pg_commit pg_rollback pg_close pg_pool_release pg_drop
+     pg_pool_drop pg_exit pbind pret pfail pcallf p_set_ac p_set_imm p_set_intx p_set_has p_set_reg pinv
+     g_has g_pool g_ac g_dtx g_reg g_imm g_intx g_bad g_n g_trace snd fst negb andb orb shape_ddl shape_ser shape_imm].
+Ltac kill_oracle := repeat match goal with |- context [oracle ?k] => destruct (oracle k); pnorm end.
+Ltac pcrunch := intros [h p a d r i x b n tr] [Hi Hw]; unfold PInv, pinv in *; cbn in Hi, Hw;
+                destruct h, p, a, d, r, i, x, b; cbn in Hi; try discriminate; clear Hi;
+                pnorm; kill_oracle; cbn [pg_writes_ok forallb pe_call pe_ac negb andb]; unfold pg_writes_ok in Hw; rewrite ?Hw; auto.
+
+Lemma pinv_op : forall sh o s, PInv sh s -> PInv sh (snd (pg_op oracle sh o s)).
 Proof. intros sh o. destruct sh, o; pcrunch. Qed.
-Lemma pinv_body : forall sh body s, PInv sh s -> PInv sh (fold_left (fun a o => pg_op sh o a) body s).
-Proof. intros sh body. induction body as [|o b IH]; intros s H; cbn; auto. apply IH. apply pinv_op. exact H. Qed.
+
+Lemma pinv_body : forall sh body s, PInv sh s -> PInv sh (snd (pg_body oracle sh body s)).
+Proof.
+  intros sh body. induction body as [|[o c] b IH]; intros s H; cbn [pg_body]; auto.
+  pose proof (pinv_op sh o s H) as Ho. destruct (pg_op oracle sh o s) as [ok s1]. cbn [snd] in Ho.
+  destruct ok; [apply IH; auto|]. destruct c; [apply IH; auto | exact Ho].
+Qed.
+
 (* after the session no cache is registered, so the invariant holds for whatever shape comes next *)
-Lemma pinv_exit : forall sh sh' (fl : bool) s, PInv sh s ->
-  PInv sh' (if fl then pg_rollback sh s else let s2 := pg_commit s in if g_reg s2 then pg_close sh false s2 else s2).
-Proof. intros sh sh' fl. destruct sh, sh', fl; pcrunch. Qed.
+Lemma pinv_exit0 : forall sh (ok : bool) s, PInv sh s -> PInv sh (snd (pg_exit oracle sh (ok, s))) /\ g_reg (snd (pg_exit oracle sh (ok, s))) = false.
+Proof. intros sh ok. destruct sh, ok; pcrunch. Qed.
 Lemma pinv_idle : forall sh sh' s, g_reg s = false -> PInv sh s -> PInv sh' s.
 Proof.
-  intros sh sh' s Hr [Hi Hw]. split; auto. destruct s as [h a d r i x b tr]. cbn in Hr. subst r.
-  unfold pinv in *. cbn in *. destruct sh, sh', h, a, d, i, x, b; cbn in *; auto.
+  intros sh sh' s Hr [Hi Hw]. split; auto. destruct s as [h p a d r i x b n tr]. cbn in Hr. subst r.
+  unfold pinv in *. cbn in *. destruct sh, sh', h, p, a, d, i, x, b; cbn in *; auto.
 Qed.
-Lemma pinv_session : forall sh' x s, PInv (fst (fst x)) s -> PInv sh' (pg_session s x).
-Proof. intros sh' [[sh body] fl] s H. unfold pg_session. apply pinv_exit. apply pinv_body. exact H. Qed.
+Lemma pinv_exit : forall sh sh' (ok : bool) s, PInv sh s -> PInv sh' (snd (pg_exit oracle sh (ok, s))) /\ g_reg (snd (pg_exit oracle sh (ok, s))) = false.
+Proof. intros sh sh' ok s H. destruct (pinv_exit0 sh ok s H) as (H1 & H2). split; auto. eapply pinv_idle; eauto. Qed.
 
-Definition next_shape (l : list (shape * list pop * bool)) : shape := match l with [] => ShOpt | x :: _ => fst (fst x) end.
-Lemma pinv_run : forall l s, PInv (next_shape l) s -> exists sh, PInv sh (pg_run l s).
+Lemma pinv_session : forall sh' x s, PInv (fst (fst x)) s -> PInv sh' (pg_session oracle s x) /\ g_reg (pg_session oracle s x) = false.
+Proof.
+  intros sh' [[sh body] raises] s H. unfold pg_session. cbn [fst] in H.
+  pose proof (pinv_body sh body s H) as Hb. destruct (pg_body oracle sh body s) as [ok s1]. cbn [snd] in *.
+  destruct raises; apply pinv_exit; exact Hb.
+Qed.
+
+Definition next_shape (l : list (shape * list (pop * bool) * bool)) : shape := match l with [] => ShOpt | x :: _ => fst (fst x) end.
+Lemma pinv_run : forall l s, PInv (next_shape l) s -> exists sh, PInv sh (pg_run oracle l s).
 Proof.
   induction l as [|x l IH]; intros s H; cbn.
   - exists ShOpt. exact H.
   - apply IH. apply pinv_session. exact H.
 Qed.
+End S.
+
 Lemma pinv_init : forall sh ac, PInv sh (pg_init ac).
 Proof. intros [] []; split; reflexivity. Qed.
 
-Lemma pg_writes_lemma : forall l ac, pg_writes_ok (g_trace (pg_run l (pg_init ac))) = true /\ g_bad (pg_run l (pg_init ac)) = false.
+Lemma pg_writes_lemma : forall oracle l ac,
+  pg_writes_ok (g_trace (pg_run oracle l (pg_init ac))) = true /\ g_bad (pg_run oracle l (pg_init ac)) = false.
 Proof.
-  intros l ac. destruct (pinv_run l _ (pinv_init (next_shape l) ac)) as (sh & Hi & Hw). split; auto.
-  unfold pinv in Hi. destruct (g_bad (pg_run l (pg_init ac))); auto.
+  intros oracle l ac. destruct (pinv_run oracle l _ (pinv_init (next_shape l) ac)) as (sh & Hi & Hw). split; auto.
+  unfold pinv in Hi. destruct (g_bad (pg_run oracle l (pg_init ac))); auto.
 Qed.
+Lemma pg_session_ends : forall oracle x s, PInv (fst (fst x)) s -> g_reg (pg_session oracle s x) = false.
+Proof. intros oracle x s H. apply (pinv_session oracle ShOpt x s H). Qed.
